@@ -436,15 +436,16 @@ Theorem kw_order_invariance : forall ks1 ks2 h h1 h2, Permutation ks1 ks2 -> NoD
 Proof. exact kw_order_invariance_lemma. Qed.
 Print Assumptions kw_order_invariance.
 
-(* v2g_load: every well-formed version-2 file with its keyword lines in an accepted order, information blocks and an
-   optional [Noise Data] block loads to the object it describes; hence a permutation of the keyword lines changes
+(* v2g_load: every well-formed version-2 file - and every "[Version] 1.0" file that carries version-2 keywords (q_v2 = false:
+   read by the version-2 reader, file type Touchstone 1, Z / Y / H / G data un-normalised by R at the end) - with its keyword
+   lines in an accepted order, information blocks and an optional [Noise Data] block loads to the object it describes; hence a permutation of the keyword lines changes
    nothing, and neither does dropping the noise block. *)
 Theorem v2g_load : forall h f, v2g_wf h f -> parse (v2g_stream h f) = Ok (v2g_result h f).
 Proof. exact v2g_load_lemma. Qed.
 Print Assumptions v2g_load.
 
 Theorem kw_order_load : forall h1 h2 f1 f2, v2g_wf h1 f1 -> v2g_wf h2 f2 ->
-  q_opts f1 = q_opts f2 -> q_records f1 = q_records f2 ->
+  q_v2 f1 = q_v2 f2 -> q_opts f1 = q_opts f2 -> q_records f1 = q_records f2 ->
   Permutation (q_kws f1) (q_kws f2) -> NoDup (map kw_kind (filter not_info (q_kws f1))) ->
   h1 = h2 /\ parse (v2g_stream h1 f1) = parse (v2g_stream h2 f2) /\ parse (v2g_stream h1 f1) = Ok (v2g_result h1 f1).
 Proof. exact kw_order_load_lemma. Qed.
@@ -472,14 +473,61 @@ Theorem npd_column_forms : forall (K : CField) (ci : K) (cexp pow10 log10 : K ->
 Proof. exact npd_convert_equiv_lemma. Qed.
 Print Assumptions npd_column_forms.
 
-(* npd_header_order_z0_partial: on the byte-level header model (NpdLoad.hline_step) the '#:z0' line may stand before or
+(* npd_header_z0_commutes: on the byte-level header model (NpdLoad.hline_step) the '#:z0' line may stand before or
    after any line that does not fix the dimensions (version, frequencies, parameters, fprecision, dprecision): both
    orders are refused or both give the same header; before the port count it is refused, and a '#:ports' line after it
-   is refused.  Partial: the statement for an arbitrary permutation of a whole header (with the side condition that
-   '#:z0' follows '#:ports' or both '#:rows' and '#:columns') is not proved. *)
-Theorem npd_header_order_z0_partial :
+   is refused.  (Single swaps in any state; the statement for whole headers is npd_header_order below.) *)
+Theorem npd_header_z0_commutes :
   (forall h k f fz, dims_key k = false -> alike (hdr_run h [(NKZ0, fz); (k, f)]) (hdr_run h [(k, f); (NKZ0, fz)])) /\
   (forall h fz, n_ports h = (-1)%Z -> (n_rows h = (-1)%Z \/ n_columns h = (-1)%Z) -> hline_step h NKZ0 fz = inl NEBADMSG) /\
   (forall h fz h' f, hline_step h NKZ0 fz = inr h' -> hline_step h' NKPorts f = inl NEBADMSG).
 Proof. exact (conj z0_commutes_lemma (conj z0_before_ports_rejected_lemma ports_after_z0_rejected_lemma)). Qed.
-Print Assumptions npd_header_order_z0_partial.
+Print Assumptions npd_header_z0_commutes.
+
+(* ==== second round of session 5 ============================================================================== *)
+Require Import LV.Files.TsFormatV2g LV.Files.NpdHeaderOrder.
+
+(* a "[Version] 1.0" file with version-2 keywords: Z data, one port, loaded as Touchstone 1 and un-normalised by R = 50 *)
+(* exh_object_stmt (Files/TsV2OrderExamples.v): load_ts exh_bytes = Ok o with o = v2g_result ..., o_v2 o = false, type Z, one port,
+   cell (75, -25, 1) *)
+Example v2g_load_hybrid_instance :
+  v2g_wf (hdr_of exh) exh /\ tokens exh_bytes = v2g_stream (hdr_of exh) exh /\ exh_object_stmt.
+Proof. exact (conj exh_wf (conj exh_stream exh_object)). Qed.
+
+(* format_equiv_v2g: RI vs MA vs DB composed with v2g_load: three version-2 files, each with its keyword lines in its own
+   accepted order, its own information blocks and noise block, that agree in unit, type, R, ports, two-port order, matrix
+   format and [Reference], differ in the format word and spell pair by pair the same complex numbers, load to objects with
+   the same file type, type, ports, frequencies, reference impedances and complex values. *)
+Theorem format_equiv_v2g : forall (K : CField) (ofQ : Qc -> K) (ci : K) (cexp : K -> K) (ln10 rad_per_deg twenty pi c180 : K)
+    (pow10 log10 : K -> K),
+  fmt_laws K ofQ ci cexp ln10 rad_per_deg twenty pi c180 pow10 ->
+  forall hr hm hd fr fm fd, v2g_wf hr fr -> v2g_wf hm fm -> v2g_wf hd fd ->
+    h_fmt hr = FRI -> h_fmt hm = FMA -> h_fmt hd = FDB -> hdr_same_data hr hm -> hdr_same_data hd hm ->
+    same_records K ofQ ci cexp twenty pi c180 pow10 log10 (q_records fr) (q_records fm) (q_records fd) ->
+    exists o_ri o_ma o_db, parse (v2g_stream hr fr) = Ok o_ri /\ parse (v2g_stream hm fm) = Ok o_ma /\ parse (v2g_stream hd fd) = Ok o_db /\
+      same_meta o_ri o_ma /\ same_meta o_db o_ma /\
+      obj_values K ofQ ci cexp ln10 rad_per_deg twenty o_ri = obj_values K ofQ ci cexp ln10 rad_per_deg twenty o_ma /\
+      obj_values K ofQ ci cexp ln10 rad_per_deg twenty o_db = obj_values K ofQ ci cexp ln10 rad_per_deg twenty o_ma.
+Proof. exact format_equiv_v2g_lemma. Qed.
+Print Assumptions format_equiv_v2g.
+
+(* npd_header_order: on the byte-level header model (NpdLoad.hline_step run over the header records, hdr_run) two orders of
+   the same header lines - '#:version', '#:ports' or the legacy '#:rows' / '#:columns', '#:frequencies', '#:parameters',
+   '#:fprecision', '#:dprecision', '#:z0'; each keyword at most once - that the loader accepts leave the SAME header state
+   (hence the same post_header, field accounting and loaded object). *)
+Theorem npd_header_order : forall l1 l2 h1 h2, Permutation l1 l2 -> NoDup (keys l1) ->
+  hdr_run nh0 l1 = inr h1 -> hdr_run nh0 l2 = inr h2 -> h1 = h2.
+Proof. exact npd_header_order_full_lemma. Qed.
+Print Assumptions npd_header_order.
+
+(* the refused orders: '#:z0' before the port count is known (no '#:ports' line and not both legacy lines before it);
+   '#:ports' anywhere after '#:z0'; and every accepted order has '#:z0' after the lines the port count comes from
+   (the '#:ports' line if the header has one, else '#:rows' and '#:columns').
+   Not proved: the converse (every order with '#:z0' in such a position is accepted when one order is) - tie only. *)
+Theorem npd_header_refused_orders :
+  (forall pre fz post, ~ In NKPorts (keys pre) -> ~ In NKZ0 (keys pre) -> (~ In NKRows (keys pre) \/ ~ In NKColumns (keys pre)) ->
+     exists c, hdr_run nh0 (pre ++ (NKZ0, fz) :: post) = inl c) /\
+  (forall h pre fz mid f post, exists c, hdr_run h (pre ++ (NKZ0, fz) :: mid ++ (NKPorts, f) :: post) = inl c) /\
+  (forall l h, NoDup (keys l) -> hdr_run nh0 l = inr h -> z0_position_ok l).
+Proof. exact (conj z0_early_refused_lemma (conj ports_after_z0_refused_lemma accepted_z0_position_lemma)). Qed.
+Print Assumptions npd_header_refused_orders.
